@@ -2023,8 +2023,10 @@ func c30RTPWorker(t *testing.T, logw func(string, ...any), cs c30Case) { //nolin
 			sentinelSSRC = uint32(s.GetParameters().Encodings[0].SSRC)
 		}
 	}
-	var ridTracks, otherTracks int64
+	var ridTracks, otherTracks, reannounced int64
 	var cmu sync.Mutex
+	seenTracks := map[*TrackRemote]bool{}
+	seenRecv := map[*RTPReceiver]bool{}
 	b.OnTrack(func(tr *TrackRemote, r *RTPReceiver) {
 		isSentinel := uint32(tr.SSRC()) == sentinelSSRC
 		cmu.Lock()
@@ -2033,14 +2035,30 @@ func c30RTPWorker(t *testing.T, logw func(string, ...any), cs c30Case) { //nolin
 		} else if !isSentinel {
 			otherTracks++
 		}
+		// pion announces the SAME TrackRemote again when another SSRC arrives with a known mid/rid;
+		// the application modelled here reads every TrackRemote / RTPReceiver from ONE goroutine
+		// (two concurrent readers of one track race inside srtp.ReadStreamSRTP.Read)
+		dupT, dupR := seenTracks[tr], seenRecv[r]
+		seenTracks[tr], seenRecv[r] = true, true
+		if dupT {
+			reannounced++
+		}
 		cmu.Unlock()
-		go func() {
-			for {
-				if _, _, err := r.ReadRTCP(); err != nil && (strings.Contains(err.Error(), "EOF") || strings.Contains(err.Error(), "closed")) {
-					return
+		if dupT && dupR {
+			return
+		}
+		if !dupR {
+			go func() {
+				for {
+					if _, _, err := r.ReadRTCP(); err != nil && (strings.Contains(err.Error(), "EOF") || strings.Contains(err.Error(), "closed")) {
+						return
+					}
 				}
-			}
-		}()
+			}()
+		}
+		if dupT {
+			return
+		}
 		go func() {
 			for {
 				p, _, err := tr.ReadRTP()
@@ -2197,7 +2215,8 @@ func c30RTPWorker(t *testing.T, logw func(string, ...any), cs c30Case) { //nolin
 	c30Quiesce()
 	expectSentinel("after the last shape")
 	cmu.Lock()
-	logw("RTPDONE sent=%d unsendable=%d rid_tracks=%d other_tracks=%d", sent, unsendable, ridTracks, otherTracks)
+	logw("RTPDONE sent=%d unsendable=%d rid_track_announcements=%d same_track_announced_again=%d other_tracks=%d",
+		sent, unsendable, ridTracks, reannounced, otherTracks)
 	cmu.Unlock()
 	_ = a.Close()
 	_ = b.Close()
